@@ -174,6 +174,9 @@ class Walk:
 
     def __init__(self, prog, gorder="asc"):
         self.lines = []            # (indent, text)
+        self.flat = []             # (flat kind, indent) per line: the same program in the E1 alphabet
+        self.flat_ok = True        # False if a condition is an expression (no E1 letter for it)
+        self.def_lines = {}        # position -> full name of the definition on that line
         self.data = {}             # expected name -> value
         self.tagged = set()        # expected names carrying tag "t"
         self.feat = set()
@@ -192,8 +195,9 @@ class Walk:
         if self.uses_root and self.root_def is None:
             raise Invalid("condition/modification refers to v1 but line 1 is not a root definition")
 
-    def _emit(self, ind, text):
+    def _emit(self, ind, text, kind="n"):
         self.lines.append((ind, text))
+        self.flat.append((kind, ind))
         return len(self.lines)
 
     def _seq(self, seq, ind, gpath, visible, eff, top=False):
@@ -205,6 +209,7 @@ class Walk:
                 name = "v%d" % ln
                 self.lines[-1] = (ind, "%s int = %d" % (name, ln))
                 full = ".".join(gpath + (name,))
+                self.def_lines[ln - 1] = full
                 if top and pos == 0:
                     self.root_def = full
                 visible.append((gpath, name, full))
@@ -281,19 +286,30 @@ class Walk:
         found = False
         for cond, body in clauses:
             if cond == "E":
-                self._emit(ind, "@else")
+                self._emit(ind, "@else", "el")
                 sel = not found
             else:
                 text, val = self._cond(cond)
-                self._emit(ind, "@case " + text)
+                self._emit(ind, "@case " + text, "cT" if val else "cF")
+                if cond not in "TF":
+                    self.flat_ok = False
                 sel = val and not found
                 found = found or val
             self._tally(eff, 1)
             # definitions made inside a clause are visible only inside that clause
             self._seq(body, ind + 1, gpath, list(visible), eff and sel)
         if end:
-            self._emit(ind, "@end")
+            self._emit(ind, "@end", "en")
             self._tally(eff, 1)
+
+    def cross_check(self):
+        """Second reading of the same lines by the independently written indentation automaton (flat_reference):
+        it must call the program well-formed and select the same definitions.  Expression conditions enter with
+        the truth value the reference computed for them.  Returns True when both readings agree."""
+        verdict, info, _ = flat_reference(tuple(self.flat))
+        if verdict != "ok":
+            return False
+        return {self.def_lines[p] for p in info if p in self.def_lines} == set(self.data)
 
 
 def text_of(lines, unit=2):
